@@ -1296,6 +1296,33 @@ Section ModeProofs.
     apply map_ext_in. intros p Hp. rewrite Forall_forall in H. apply (roundtrip_param on_cpu serve train dflt p (H p Hp)).
   Qed.
 
+  (* over ALL tensors the forward pass reads: the round trip is exact provided every tensor that a conversion
+     touches is an entry of state_dict() (so that train_params holds it) - true of xformer.Transformer today
+     (the sin table `pe` is a persistent buffer); checked on the implementation over named_parameters and
+     named_buffers in every mode case *)
+  Lemma roundtrip_tensor : forall on_cpu serve train dflt (t : bool * pstate),
+    wf_param train dflt (snd t) -> (fst t = true \/ dtype_eqb train serve = true) ->
+    let t' := train_tensor cast train dflt (serve_tensor cast on_cpu serve dflt t) in
+    cell (snd t') (live (snd t')) dflt = cell (snd t) (live (snd t)) dflt.
+  Proof.
+    intros on_cpu serve train dflt [sd p] Hwf Hsd. simpl in Hwf, Hsd.
+    destruct sd.
+    - unfold train_tensor, serve_tensor. simpl. apply (roundtrip_param on_cpu serve train dflt p Hwf).
+    - destruct Hsd as [Hsd|Hsd]; [discriminate|].
+      destruct p as [C L M]. destruct Hwf as [HL HT]. unfold cell in *. simpl in HL, HT.
+      destruct (nth L C dflt) as [dt v] eqn:EC. simpl in HT. subst dt.
+      unfold train_tensor, serve_tensor, train_param, to_dtype, cell. simpl.
+      rewrite EC, Hsd. simpl. rewrite EC, dtype_eqb_refl. simpl. rewrite ?EC. reflexivity.
+  Qed.
+  Theorem mode_roundtrip_all_exact : forall on_cpu serve train dflt (m : list (bool * pstate)),
+    Forall (fun t => wf_param train dflt (snd t) /\ (fst t = true \/ dtype_eqb train serve = true)) m ->
+    values_all dflt (train_mode_all cast train dflt (serve_mode_all cast on_cpu serve dflt m)) = values_all dflt m.
+  Proof.
+    intros on_cpu serve train dflt m H. unfold values_all, train_mode_all, serve_mode_all. rewrite !map_map.
+    apply map_ext_in. intros t Ht. rewrite Forall_forall in H. destruct (H t Ht) as [Hw Hs].
+    apply (roundtrip_tensor on_cpu serve train dflt t Hw Hs).
+  Qed.
+
   (* what the code does about aliasing: on the CPU with serve_dtype = train_dtype (Config forces it)
      train_params[k] IS the live parameter; whenever a conversion happens the master copy is a different cell *)
   Theorem master_aliases_live_iff : forall on_cpu serve train dflt (p : pstate), wf_param train dflt p ->
@@ -1343,6 +1370,14 @@ Theorem master_copy_in_snapshot_refuted :
     cell q (live q) (F32, 0) <> cell p (live p) (F32, 0) /\          (* what model.pt gets *)
     (match master q with Some i => cell q i (F32, 0) | None => (F32, 0) end) = cell p (live p) (F32, 0).   (* what only train_params holds *)
 Proof. exists (mkP [(F32, 1000)] 0 None). split; [split; [simpl; lia|reflexivity]|]. vm_compute. split; [intro H; discriminate|reflexivity]. Qed.
+
+(* a tensor the forward pass reads that is NOT a state_dict entry (e.g. a non-persistent buffer) is converted by
+   model.to(serve_dtype) and converted back, never restored: the hypothesis of mode_roundtrip_all_exact is needed *)
+Theorem tensor_outside_state_dict_refuted :
+  exists (p : @pstate Z), wf_param F32 (F32, 0) p /\
+    let t' := train_tensor demo_cast F32 (F32, 0) (serve_tensor demo_cast true BF16 (F32, 0) (false, p)) in
+    cell (snd t') (live (snd t')) (F32, 0) <> cell p (live p) (F32, 0).
+Proof. exists (mkP [(F32, 1000)] 0 None). split; [split; [simpl; lia|reflexivity]|]. vm_compute. intro H; discriminate. Qed.
 
 Example inplace_conversion_loses_master_refuted :
   let p := mkP [(F32, 1000)] 0 None in
